@@ -12,7 +12,7 @@ from mirsym.models.iters import mk_list_iter
 from checks.common import *
 
 NAMES = ['a', 'a.liquid']      # a name and its '.liquid' sibling: fallbacks between related names are observable
-ABSENT, VALID, BROKEN = 0, 1, 2
+ABSENT, VALID, BROKEN, EMPTY = 0, 1, 2, 3          # EMPTY: present, its source is the empty string (which parses to the empty template)
 
 
 def status(n): return z3.Int(f'status_{n}')
@@ -22,7 +22,7 @@ def fork_status(ex, st, n):
     key = ('status', n)
     if key in st.env:
         yield st, st.env[key]; return
-    for k in (ABSENT, VALID, BROKEN):
+    for k in (ABSENT, VALID, BROKEN, EMPTY):
         s2 = st.clone(); s2.assume(status(n) == k); s2.env[key] = k
         yield s2, k
 
@@ -61,7 +61,7 @@ def source_object():
                     if k == ABSENT:
                         yield s2, 'ret', (NONE if m == 'try_get' else Err(Adt('LiquidError', None, [Opaque(('msg', f'unknown partial {n}'))])))
                     else:
-                        text = StrV('SRC:' + n, 'str')
+                        text = StrV('' if k == EMPTY else 'SRC:' + n, 'str')
                         yield s2, 'ret', (Some(text) if m == 'try_get' else Ok(text))
             return g()
         return None
@@ -72,6 +72,9 @@ def parse_stub(ctx, args, st):
     """parser::parse(text, language): Ok(renderables) or Err, decided by the (symbolic) status of the partial the text belongs to"""
     s = st.deref_all(args[0])
     text = s.concrete() if isinstance(s, StrV) else None
+    if text == '':
+        log_call(st, 'parse', '<empty text>')
+        return ret(st, Ok(VecV([], 'Vec')))          # the empty text parses to the template without elements (grammar fact, C01)
     if text is None or not text.startswith('SRC:'): raise Unsupported(f'parse of {s!r}')
     n = text[4:]
     def g():
@@ -103,8 +106,8 @@ def template_of(st, m, val):
 
 
 def reference(m, n, k):
-    if m == 'get': return 'ok' if k == VALID else 'err'
-    if m == 'try_get': return 'some' if k == VALID else 'none'
+    if m == 'get': return 'ok' if k in (VALID, EMPTY) else 'err'
+    if m == 'try_get': return 'some' if k in (VALID, EMPTY) else 'none'
     return k != ABSENT
 
 
@@ -112,7 +115,7 @@ def ob_equivalence(chk, P, hist_len):
     with chk.obligation('stores/observational-equivalence', 'for every history of contains / try_get / get calls, the eager, lazy and on-demand stores built over the same source answer alike, and as the reference says: '
                         'get succeeds and try_get is Some exactly for a present partial that parses (always with the same template for the same name), contains tells presence; a missing or broken partial '
                         'never makes building the store fail; repeated use gives the same answer',
-                        {'source': 'two names, each absent / present and valid / present and broken by the solver\'s choice, plus an unknown name; truthful names()', 'histories': f'every sequence of 1..{hist_len} calls over {len(CALLS)} (method, name) pairs'}) as ob:
+                        {'source': 'two names, each absent / present and valid / present and broken / present with the empty text by the solver\'s choice, plus an unknown name; truthful names()', 'histories': f'every sequence of 1..{hist_len} calls over {len(CALLS)} (method, name) pairs'}) as ob:
         ex = Executor(P, models_with(STUBS)); ex.seed = chk.seed; ex.max_steps = 100000
         ob.stubs += ['PartialSource: abstract (per-name status chosen by the solver)', 'parser::parse: outcome stub keyed by the source text']
         fns = {}
@@ -158,7 +161,7 @@ def ob_equivalence(chk, P, hist_len):
                             if got in ('panic', 'build-failed'): bad = f'{pol}: {got} {tmpl}'; break
                             k = stat.get(n) if n in NAMES else ABSENT
                             if k is None: continue       # the status of this name was never examined on this path: any answer consistent with the others
-                            if got != reference(m, n, k): bad = f'{pol}: {m}({n!r}) answers {got}, expected {reference(m, n, k)} (partial is {["absent", "valid", "broken"][k]})'; break
+                            if got != reference(m, n, k): bad = f'{pol}: {m}({n!r}) answers {got}, expected {reference(m, n, k)} (partial is {["absent", "valid", "broken", "empty"][k]})'; break
                         if bad: break
                     if not bad:
                         base = results[0][1]
@@ -180,6 +183,7 @@ def ob_equivalence(chk, P, hist_len):
                             k = stat.get(n)
                             if k == VALID: partials[n] = 'ok-' + n
                             elif k == BROKEN: partials[n] = '{% if %}'
+                            elif k == EMPTY: partials[n] = ''
                         def exp_of(m, n):
                             k = stat.get(n) if n in NAMES else ABSENT
                             r = reference(m, n, k if k is not None else ABSENT)
@@ -191,6 +195,37 @@ def ob_equivalence(chk, P, hist_len):
         ob.absorb(ex)
 
 
+def ob_inmemory_source(chk, P):
+    with chk.obligation('InMemorySource/truthful', 'the in-memory partial source answers for exactly the names it was given: contains(n) and try_get(n) hold exactly when n is one of the stored names '
+                        '(no trimming, case folding or extension guessing), try_get returns the stored text, and names() lists exactly the stored names -- the contract the three stores rely on',
+                        {'stored': "one partial stored under 'ab'", 'queried name': '0..4 symbolic characters (any Unicode scalar value)'}) as ob:
+        from mirsym.models.maps import MapV
+        from mirsym.models.strings import valid_char
+        ex = Executor(P, models_with([])); ex.seed = chk.seed; ex.max_steps = 50000
+        f = {m: P.find(r'^fn \w+::<impl at crates/core/src/partials/inmemory.rs:\d+:\d+: \d+:\d+>::' + m + r'\(_1: &InMemorySource', 'core') for m in ('contains', 'try_get', 'names')}
+        stored = 'ab'
+        for n in range(0, 5):
+            st = State(); cs = [z3.BitVec(f'q{i}', 32) for i in range(n)]
+            for c in cs: st.assume(valid_char(c))
+            src = st.ref(Adt('InMemorySource', None, [MapV([stored], [StrV('TEXT', 'String')], 'HashMap')], ['data']))
+            is_stored = z3.And(*[c == ord(ch) for c, ch in zip(cs, stored)]) if n == len(stored) else z3.BoolVal(False)
+            for meth in ('contains', 'try_get'):
+                for s2, kind, val in ex.run(f[meth], [src, st.ref(StrV(cs, 'str'))], st.clone()):
+                    ob.paths += 1; ob.reached()
+                    if kind != 'ret': got = None
+                    elif meth == 'contains': got = val.e if isinstance(val, Bool) else None
+                    else: got = z3.BoolVal(val.variant == 'Some')
+                    m = ob.decide(ex, s2.conds, z3.BoolVal(True) if got is None else (got != is_stored))
+                    if m is not None:
+                        q = ''.join(chr(m.eval(c, model_completion=True).as_long()) for c in cs)
+                        exp = 'true' if q == stored else 'false'
+                        ob.violation(f'InMemorySource/{meth}', f"InMemorySource holding only {stored!r}: {meth}({q!r}) answers {val}", {'stored': stored, 'query': q},
+                                     {'kind': 'stores', 'partials': {stored: 'ok'}, 'history': [['contains', q]], 'expected': [exp]}, lambda r: r.get('outcome') == 'violation')
+            ob.sample({'query_len': n})
+        ob.absorb(ex)
+
+
 def run(chk):
     P = chk.program(('core',))
     ob_equivalence(chk, P, 3 if chk.tier == 'quick' else 4)
+    ob_inmemory_source(chk, P)
